@@ -14,7 +14,7 @@ import z3
 
 from .values import (
     BoundMethod, BuiltinVal, ClassVal, Closure, EnumVal, ExcVal, FuncVal, HDict, HInst, HList, HSymMap, HexStr,
-    ModuleVal, Opaque, Ref, SuperVal, SymBytes, SymSeq, Unsupported, is_intlike, is_sym, is_symbool, is_symint,
+    ModuleVal, Opaque, Ref, Rope, SuperVal, SymBytes, SymSeq, Unsupported, is_intlike, is_sym, is_symbool, is_symint,
     to_z3bool, to_z3int,
 )
 
@@ -225,6 +225,8 @@ class Interp:
             return len(v.items) > 0
         if isinstance(v, SymSeq):
             return v.length > 0
+        if isinstance(v, Rope):
+            return self.models.sum_len(v.chunks) > 0
         if isinstance(v, Ref):
             o = self.hget(st, v)
             if isinstance(o, HList):
@@ -314,7 +316,7 @@ class Interp:
             return "int"
         if isinstance(v, str):
             return "str"
-        if isinstance(v, (bytes, SymBytes)):
+        if isinstance(v, (bytes, SymBytes, Rope)):
             return "bytes"
         if isinstance(v, SymSeq):
             return v.kind
